@@ -21,7 +21,7 @@ RULE = ("Three generated campaigns. (a) 'geometry': direct calls trsbox_geometry
         "{0, 1, drawn}, g over 7 decades with zero components, Delta over 5 decades, each box side drawn from {degenerate (on "
         "xbase), 1e-3, 0.3, 1, 30 times Delta, absent}; global optimality against a clipped-ray bisection reference. "
         "(b) 'convex': ctrsbox_pgd / ctrsbox_geometry / ctrsbox_sfista with 1-3 balls/half-spaces/boxes containing the centre "
-        "(centre in the interior or on the boundary), PSD/zero/low-rank H, L1/L2 regulariser for S-FISTA. (c) 'regstep': "
+        "(centre in the interior, on the boundary, or with the boundaries of several sets passing through it), PSD/zero/low-rank H, L1/L2 regulariser for S-FISTA. (c) 'regstep': "
         "Controller.trust_region_step on real Controller+Model objects built on n+1 coordinate points with an L1/L2 regulariser, "
         "at random points and at (perturbed) regularised stationary points where the raw S-FISTA step is slightly uphill. "
         "Non-trivial = (a) a box side active at the solution, (b) a user set active at the step or the step on the ball, "
@@ -128,8 +128,11 @@ def convex_cases(draw):
     n = draw(st.integers(1, 4))
     mag = 10.0 ** draw(st.integers(-1, 1))
     z = [sc.dec(draw(sc.g10) * mag) for _ in range(n)]
-    sets = draw(sc.draw_sets(n, z, mag))
+    sets = draw(sc.draw_sets(n, z, mag, nmin=draw(st.sampled_from([1, 2, 2])), nmax=3, touching=True))
     where = draw(st.sampled_from(["interior", "interior", "boundary"]))
+    if any((sp["kind"] == "ball" and abs(np.linalg.norm(np.array(z) - np.array(sp["c"])) - sp["r"]) <= 1e-9 * sp["r"]) or
+           (sp["kind"] == "half" and abs(np.dot(sp["a"], z) - sp["beta"]) <= 1e-9 * (1 + abs(sp["beta"]))) for sp in sets):
+        where = "touching"       # the boundary of one or more sets passes through the centre by construction
     xc = np.array(z)
     if where == "boundary":
         dirn = np.array([draw(sc.g8) for _ in range(n)])
@@ -305,6 +308,6 @@ def run_regstep(case):
 
 
 PROFILES = {"geometry": Profile("geometry", geom_cases, run_geom, quick=30000, thorough=1000000, timeout=60),
-            "convex": Profile("convex", convex_cases, run_convex, quick=1500, thorough=60000, timeout=120),
+            "convex": Profile("convex", convex_cases, run_convex, quick=6000, thorough=150000, timeout=120),
             "regstep": Profile("regstep", regstep_cases, run_regstep, quick=400, thorough=8000, timeout=120)}
 KNOWN = {}
